@@ -146,7 +146,12 @@ class AsyncSocket(base_socket.BaseSocket):
             return self.server._bad_request()
         ws = self.server._async['websocket'](
             self._websocket_handler, self.server)
-        return await ws(environ)
+        try:
+            return await ws(environ)
+        finally:
+            # an upgrade aborted by an exception (connection lost, packet too
+            # large or undecodable) must not leave polling on hold
+            self.upgrading = False
 
     async def _websocket_handler(self, ws):
         """Engine.IO handler for websocket transport."""
